@@ -835,7 +835,7 @@ def run(ctx: Ctx) -> None:
                 "object read after every call / sparsely / at the end only; non-trivial = at least 3 "
                 "matrix-changing calls; distinct = distinct op list")
     rng = ctx.rng
-    for rep in range(ctx.n(2, 30)):
+    for rep in range(ctx.n(2, 20)):
         for want in MUTATORS:
             if ctx.out_of_time():
                 break
@@ -851,7 +851,7 @@ def run(ctx: Ctx) -> None:
             for j in (0, 2) if shape != "default-only" else (0,):
                 ctx.count("corpus:settings:" + shape)
                 _one(ctx, directed_settings(rng, shape, vals[(2 * rep + si + j) % len(vals)]), sample=False)
-    N = ctx.n(250, 3000)
+    N = ctx.n(250, 1900)
     for i in range(N):
         if ctx.out_of_time():
             break
